@@ -25,7 +25,7 @@ RULE = ('arrangements: {output: factory | open stream} x {map: none | separate f
         'stream (inline)} x {names: absolute | relative | missing} x {nodes: single | list | generator | several '
         'sources} x {pretty, minify+obfuscate} x {source_mapping_url default | None | explicit} over small corpus '
         'programs; read(): {factory | open stream} x {valid | syntax error | read fault}. For every arrangement every '
-        'fault point of the fault-free run is enumerated and injected once. A case = (arrangement, fault point or '
+        'fault point of the fault-free run is enumerated and injected twice, once as an Exception subclass and once as a failure that is not an Exception (as KeyboardInterrupt / SystemExit are). A case = (arrangement, fault point or '
         '"none"); every case is non-trivial; distinct by that pair.')
 ASSUMPTIONS = ['behaviour when close() itself raises, and non-string stream names, are not demanded',
                'the inline data URL is accepted in the form the helper writes it (parameters in any order) as long as '
@@ -42,6 +42,10 @@ class FaultInjected(Exception):
     pass
 
 
+class AbortInjected(BaseException):
+    """a failure that is not an Exception (what KeyboardInterrupt, SystemExit, GeneratorExit are)"""
+
+
 class Log(object):
     def __init__(self):
         self.events = []
@@ -55,7 +59,8 @@ class Log(object):
         self.events.append((len(self.events), label, method, detail))
         if self.fault is not None and self.fault[0] == label and self.fault[1] == method \
                 and self.counts[key] == self.fault[2]:
-            self.injected = FaultInjected('%s.%s #%d' % (label, method, self.fault[2]))
+            cls = AbortInjected if (len(self.fault) > 3 and self.fault[3] == 'abort') else FaultInjected
+            self.injected = cls('%s.%s #%d' % (label, method, self.fault[2]))
             raise self.injected
 
 
@@ -244,7 +249,7 @@ def run_write(ctx, arr, fault=None):
     raised = None
     try:
         cio.write(printer, nodes, out_arg, map_arg, **kwargs)
-    except FaultInjected as e:
+    except (FaultInjected, AbortInjected) as e:
         raised = e
     except Exception as e:
         raised = e
@@ -371,6 +376,7 @@ def explore_write(ctx, arr):
     for (label, method), n in sorted(obs['log'].counts.items()):
         for k in range(1, n + 1):
             points.append((label, method, k))
+            points.append((label, method, k, 'abort'))
     ctx.count('fault_points_enumerated', len(points))
     for fp in points:
         o2 = run_write(ctx, arr, fault=fp)
@@ -380,11 +386,12 @@ def explore_write(ctx, arr):
             continue
         ctx.hit('fault_injected')
         ctx.count('fault_site:%s.%s' % (fp[0], fp[1]))
+        ctx.count('fault_class:%s' % ('BaseException' if len(fp) > 3 else 'Exception'))
         v = audit_closure(o2['log'], o2['streams'], inj, o2['raised'])
         ctx.hit('close_checked', len(o2['streams']))
         ctx.case((arr_key(arr), fp), True)
         if v:
-            v = [(m + ':at_%s.%s' % (fp[0], fp[1]), d) for m, d in v]
+            v = [(m + ':at_%s.%s%s' % (fp[0], fp[1], ':non_Exception_failure' if len(fp) > 3 else ''), d) for m, d in v]
         report(ctx, v, arr, fp, 'write')
 
 
@@ -392,7 +399,7 @@ def explore_read(ctx, kind, text, name):
     import calmjs.parse.io as cio
     from calmjs.parse.parsers.es5 import parse
     from calmjs.parse.exceptions import ECMASyntaxError
-    for fp in (None, ('in', 'open', 1), ('in', 'read', 1)):
+    for fp in (None, ('in', 'open', 1), ('in', 'read', 1), ('in', 'open', 1, 'abort'), ('in', 'read', 1, 'abort')):
         if fp and fp[1] == 'open' and kind != 'factory':
             continue
         log = Log()
@@ -406,7 +413,7 @@ def explore_read(ctx, kind, text, name):
         result = None
         try:
             result = cio.read(parse, arg)
-        except Exception as e:
+        except (Exception, AbortInjected) as e:
             raised = e
         ctx.hit('io.read')
         streams = arg.products if kind == 'factory' else [arg]
